@@ -261,6 +261,7 @@ func runC11(res *lp.Result) {
 	r := newValRunner(res, "C11")
 	inexactFloats(res)
 	largeCollections(res, "C11")
+	usedDestinationsAndExtremes(res, "C11")
 	res.Notes = append(res.Notes,
 		"NULL is handed to a scalar codec as a nil pointer or nil interface, and as a nil slice only where the slice is the preferred type "+
 			"(blob, custom, inet); a nil []byte given for a uuid is refused and a nil []rune given for a varchar is written as the empty string (recorded by C14)",
@@ -460,6 +461,7 @@ func runC12(res *lp.Result) {
 		"than 65535 elements). Non-trivial = value is not NULL, zero or empty; distinct by (type, version, value)."
 	rng := lp.NewRng(*seed)
 	largeCollections(res, "C12")
+	usedDestinationsAndExtremes(res, "C12")
 	r := newValRunner(res, "C12")
 	// (1) vectors
 	for _, sv := range specVectors() {
@@ -862,6 +864,7 @@ func runC14(res *lp.Result) {
 		"round-trip in every version. Non-trivial = every case (each involves a NULL); distinct by (check, type, version, Go type, position)."
 	rng := lp.NewRng(*seed)
 	r := newValRunner(res, "C14")
+	usedDestinationsAndExtremes(res, "C14")
 	res.Notes = append(res.Notes,
 		"distribution keys empty-input/<type>/<null|value|error>: what Decode does with an empty non-nil byte string, per type (summed over destinations)",
 		"distribution keys nil-scalar-slice/<type>/<go type>/<result>: Encode of a nil []byte, net.IP or []rune for a scalar type (recorded, not judged): "+
